@@ -82,7 +82,7 @@ func errOf(kind string) error {
 }
 
 func sfKey(seed int64, curve elliptic.Curve, name string) *ecdsa.PrivateKey {
-	k, _ := ecdsa.CreateKey(curve, kbScalar(seed, curve, "sf-"+name).Bytes())
+	k, _ := rawKey(curve, kbScalar(seed, curve, "sf-"+name).Bytes())
 	return k
 }
 
@@ -110,7 +110,7 @@ func execSigForks(c *ctx, in ev) []ev {
 		curve := kbCurves[gS(in, "curve")]
 		key := sfKey(c.seed, curve, "k")
 		if kd := gB(in, "d"); len(kd) > 0 { // a key made for this signature
-			key, _ = ecdsa.CreateKey(curve, kd)
+			key, _ = rawKey(curve, kd)
 		}
 		if qx := gB(in, "qx"); len(qx) > 0 { // a public key given by its coordinates (no private key known)
 			key = &ecdsa.PrivateKey{PublicKey: ecdsa.PublicKey{Curve: curve, X: new(big.Int).SetBytes(qx), Y: new(big.Int).SetBytes(gB(in, "qy"))}}
@@ -168,7 +168,7 @@ func execSigForks(c *ctx, in ev) []ev {
 				sig, err := key.Sign(cryptorand.Reader, d, crypto.SHA256)
 				ok = err == nil && stdecdsa.VerifyASN1(stdPub(&key.PublicKey), d, sig)
 			case "blind-sign/std-verify":
-				bk, _ := ecdsa.CreateKey(curve, kbBlindBytes(c.seed, curve, "b1"))
+				bk, _ := rawKey(curve, kbBlindBytes(c.seed, curve, "b1"))
 				r, s, err := ecdsa.BlindKeySignWithContext(cryptorand.Reader, key, bk, d, []byte("ctx"))
 				pub, err2 := ecdsa.BlindPublicKeyWithContext(curve, &key.PublicKey, bk, []byte("ctx"))
 				ok = err == nil && err2 == nil && stdecdsa.Verify(stdPub(pub), d, r, s) && !stdecdsa.Verify(stdPub(&key.PublicKey), d, r, s)
@@ -221,7 +221,7 @@ func execSigForks(c *ctx, in ev) []ev {
 				}
 				e["nil_out"] = sig == nil
 			case "BlindKeySign":
-				bk, _ := ecdsa.CreateKey(curve, kbBlindBytes(c.seed, curve, "b1"))
+				bk, _ := rawKey(curve, kbBlindBytes(c.seed, curve, "b1"))
 				r, s, err := ecdsa.BlindKeySignWithContext(rd, key, bk, d, []byte("ctx"))
 				if err == nil {
 					pub, _ := ecdsa.BlindPublicKeyWithContext(curve, &key.PublicKey, bk, []byte("ctx"))
